@@ -32,7 +32,7 @@ InDomUn(op, a, p) ==
                         ELSE IF IsIntegral(p) THEN FLt(Small, FAbs(a.re)) ELSE FLt(Small, a.re)
        [] op = "exp" -> FLt(FAbs(a.re), FOfInt(20))
        [] op = "log" -> FLt(Small, a.re)
-       [] op = "ncdf" -> FLt(FAbs(a.re), FOfInt(6))
+       [] op = "ncdf" -> FLt(FAbs(a.re), FOfRat(17, 2))
        [] op = "incdf" -> FLt(Tiny, a.re) /\ FLt(a.re, FSub(FOne, Tiny))
        [] op = "abs" -> FLt(Tiny, FAbs(a.re))
        [] OTHER -> TRUE
@@ -48,6 +48,10 @@ RuleUn(op, A, p, NS) == CASE op = "neg" -> Neg(A, NS) [] op = "pow" -> Pow(A, p,
                           [] op = "log" -> Log(A, NS) [] op = "ncdf" -> NormCdf(A, NS) [] op = "incdf" -> InvNormCdf(A, NS)
                           [] op = "abs" -> Abs(A, NS)
 
+\* "the same value as plain floating-point evaluation": the harness evaluates the same operation on the operands'
+\* values with the crate's OWN float path; the two must agree to a few ulps, RELATIVELY (so that a dual-number
+\* variant with a less accurate formula in a tail is seen even where the value is 1e-9)
+PlainOK(st) == ("plain" \in DOMAIN st /\ IsNum(st.res) /\ FIsFinite(st.plain)) => FRelClose(st.res.re, st.plain, FOfStr("1e-12"))
 \* ------------------------------------------------------------------ arithmetic
 \* Mixing first and second order inside the generic container is REFUSED (a panic), never computed.
 BinVerdict(op, a, b, st) ==
@@ -65,7 +69,7 @@ BinVerdict(op, a, b, st) ==
             /\ Wrapped(res) = (Wrapped(a) \/ Wrapped(b))
             /\ ShapeOK(res)
             /\ NamesOf(res) = NamesOf(a) \cup NamesOf(b)          \* exactly the union of the operands' names
-            /\ CloseTo(res, W, NS))
+            /\ CloseTo(res, W, NS) /\ PlainOK(st))
 UnVerdict(op, a, p, st) ==
   IF ~IsNum(a) \/ st.o = "skip" THEN "skip"
   ELSE IF ~InDomUn(op, a, p) THEN "skip"
@@ -76,7 +80,7 @@ UnVerdict(op, a, p, st) ==
            W == RuleUn(op, Abstract(a, NS), p, NS)
        IN V(/\ res.k = a.k /\ Wrapped(res) = Wrapped(a) /\ ShapeOK(res)
             /\ NamesOf(res) = NamesOf(a)
-            /\ CloseTo(res, W, NS))
+            /\ CloseTo(res, W, NS) /\ PlainOK(st))
 
 \* ------------------------------------------------------------------ comparisons (C19) and equality (C03)
 AllZeroDerivs(x, NS) == \A n \in NS : FEq(G(x, n), FZ) /\ \A m \in NS : FEq(H(x, n, m), FZ)
